@@ -96,6 +96,5 @@ def moldenHeader : Iodata.Wf.HdrTable := [
   ([some 'p', some 'p', some 'c', some 'p'], none),
   ([some 'p', some 'p', some 'p', none], some [Tag.d5, Tag.g9]),
   ([some 'p', some 'p', some 'p', some 'c'], none),
-  ([some 'p', some 'p', some 'p', some 'p'], some [Tag.d5, Tag.g9])
-]
+  ([some 'p', some 'p', some 'p', some 'p'], some [Tag.d5, Tag.g9])]
 end Iodata.Gen.Wf
